@@ -610,7 +610,7 @@ static int ec_write(char *loc, char *cmd, char *arg, char *txt)
 	}
 	snprintf(msg, sizeof(msg), "\"%s\"  [=%d]  [w]", path, end - beg);
 	ex_show(msg);
-	if (!ex_path()[0]) {
+	if (!ex_path()[0] && path[0] != '!') {	/* a pipe is not a file name */
 		free(bufs[0].path);
 		bufs[0].path = uc_dup(path);
 		reg_put('%', path, 0);
